@@ -136,6 +136,35 @@ theorem starFree_nRun (n : Nat) : starFree (nRun n) = true := by
   | zero => rfl
   | succ n ih => simpa [nRun, List.replicate_succ, starFree] using ih
 
+theorem letters_nRun (k : Nat) : letters (nRun k) = List.replicate k .N := by
+  induction k with
+  | zero => rfl
+  | succ n ih => simp [nRun, List.replicate_succ, letters] at ih ⊢; exact ih
+
+theorem matchesAt_extend {cs : List Nt} {xs : Word} (h : matchesAt cs xs) (ys : Word) : matchesAt cs (xs ++ ys) := by
+  obtain ⟨h1, h2⟩ := h
+  refine ⟨by simp; omega, fun j hj hj' => ?_⟩
+  have := h2 j hj (by omega)
+  rwa [List.getElem_append_left (by omega)]
+
+theorem matchesAt_append {a b : List Nt} {xs ys : Word} (ha : matchesAt a xs) (hl : xs.length = a.length)
+    (hb : matchesAt b ys) : matchesAt (a ++ b) (xs ++ ys) := by
+  obtain ⟨a1, a2⟩ := ha
+  obtain ⟨b1, b2⟩ := hb
+  refine ⟨by simp; omega, fun j hj hj' => ?_⟩
+  by_cases hja : j < a.length
+  · rw [List.getElem_append_left hja, List.getElem_append_left (by omega)]
+    exact a2 j hja (by omega)
+  · rw [List.getElem_append_right (by omega), List.getElem_append_right (by omega)]
+    simp only [hl]
+    exact b2 (j - a.length) (by simp at hj; omega) (by simp at hj'; omega)
+
+theorem matchesAt_replicate {c : Nt} {A : Word} (h : ∀ x ∈ A, clsMatch c x = true) :
+    matchesAt (List.replicate A.length c) A := by
+  refine ⟨by simp, fun j hj hj' => ?_⟩
+  simp only [List.getElem_replicate]
+  exact h _ (List.getElem_mem hj')
+
 /-- a fixed `site N^off` piece at the *front* of a run: the site's letters are matched right at the start -/
 theorem Run.front_site {s : List Nt} {o : Nat} {rest : Pat} {xs : Word} {p : Nat} {ms : List Nat} {e : Nat}
     (h : Run (lits s ++ nRun o ++ rest) xs p ms e) : matchesAt s xs := by
